@@ -610,6 +610,140 @@ theorem C07_gen_cond (res : Nat) (ctx : Ctx) (c : AlgCon) (e : Env) :
     simp only [Gen.SolCheck.funcComputeViolation, if_true] at this ⊢
     exact this
 
+/-! ## evaluators without loops (`constr_eval.h`), complementarity and indicator violations (`constr_general.h`) -/
+
+/-- **C07_gen_eval**: `ComputeValue` for Abs / Not / Div / IfThen / Implication constraints: the model's `Func.value` is the
+generated function of the argument values (Div: for a non-zero divisor; at 0 the C++ returns ±∞, which the model does not represent) -/
+theorem C07_gen_eval (e : Env) (a b c : Nat) :
+    D.fin ((Func.abs a).value e) = Gen.SolCheck.evalAbs (D.fin (e.x a)) ∧
+    D.fin ((Func.not a).value e) = Gen.SolCheck.evalNot (D.fin (e.x a)) ∧
+    (e.x b ≠ 0 → D.fin ((Func.div a b).value e) = Gen.SolCheck.evalDiv (D.fin (e.x a)) (D.fin (e.x b))) ∧
+    D.fin ((Func.ifthen a b c).value e) = Gen.SolCheck.evalIfThen (D.fin (e.x a)) (D.fin (e.x b)) (D.fin (e.x c)) ∧
+    D.fin ((Func.impl a b c).value e) = Gen.SolCheck.evalImpl (D.fin (e.x a)) (D.fin (e.x b)) (D.fin (e.x c)) := by
+  refine ⟨?_, ?_, ?_, ?_, ?_⟩
+  · simp [Func.value, Gen.SolCheck.evalAbs, D.abs, D.fin]
+  · simp [Func.value, Gen.SolCheck.evalNot, D.ofBool, D.lt, D.fin, ER.lt, b2r]
+  · intro hb
+    have : rabs (e.x b) ≠ 0 := by unfold rabs; split <;> grind
+    simp [Func.value, Gen.SolCheck.evalDiv, D.eq, D.abs, D.ofInt, D.div, D.fin, hb, this]
+    intro h0; exact absurd h0.symm this
+  · simp only [Func.value, Gen.SolCheck.evalIfThen, D.ge, D.fin, ER.lt]
+    by_cases h : (1/2 : Rat) ≤ e.x a
+    · have : ¬ (e.x a < 1/2) := by grind
+      simp [h, this]
+    · have : e.x a < 1/2 := by grind
+      simp [h, this]
+  · simp [Func.value, Gen.SolCheck.evalImpl, D.ofBool, D.ge, D.lt, D.fin, ER.lt, b2r]
+    have h1 : ∀ q : Rat, (¬ q < 1/2) ↔ (1/2 : Rat) ≤ q := by intro q; grind
+    simp only [h1]
+
+/-- **C07_gen_compl**: `ComplementarityConstraint::ComputeViolation`, with the position tests `is_at_lb` / `is_at_ub` of
+`C07_gen_varinfo` and the expression value as operands -/
+theorem C07_gen_compl (ex : Body) (v : Nat) (e : Env) :
+    Gen.SolCheck.complComputeViolation (D.fin (ex.val e.x)) (e.isAtLb v) (e.isAtUb v) = violD (complViol ex v e) := by
+  unfold complViol violD Gen.SolCheck.complComputeViolation
+  cases e.isAtLb v <;> cases e.isAtUb v <;> simp [D.neg, D.abs, D.fin, D.ofInt]
+
+/-- **C07_gen_indicator**: `IndicatorConstraint::ComputeViolation` (the inner row's violation is the operand, `C07_gen_alg`) -/
+theorem C07_gen_indicator (b : Nat) (bv : Int) (a : AlgCon) (e : Env) :
+    Gen.SolCheck.indComputeViolation (D.fin (e.x b)) bv (a.viol e.x).viol (D.fin (a.viol e.x).ref) = violD ((Con.indicator b bv a).viol e) := by
+  unfold Con.viol violD Gen.SolCheck.indComputeViolation
+  by_cases h : cround (e.x b) = bv <;> simp [h, D.eq, D.round, D.ofInt, D.fin]
+
+/-! ### evaluators with a range-for loop -/
+theorem foldl_inl {S : Type} (f : Sum D S → D → Sum D S) (hf : ∀ r x, f (Sum.inl r) x = Sum.inl r) (l : List D) (r : D) :
+    l.foldl f (Sum.inl r) = Sum.inl r := by
+  induction l with
+  | nil => rfl
+  | cons a t ih => simp [List.foldl, hf, ih]
+
+theorem fold_exit (f : Sum D Unit → D → Sum D Unit) (p : Rat → Bool) (v : D) (hf1 : ∀ r x, f (Sum.inl r) x = Sum.inl r)
+    (hf2 : ∀ q, f (Sum.inr ()) (D.fin q) = if p q then Sum.inl v else Sum.inr ()) (l : List Rat) :
+    (l.map D.fin).foldl f (Sum.inr ()) = if l.any p then Sum.inl v else Sum.inr () := by
+  induction l with
+  | nil => rfl
+  | cons a t ih =>
+    simp only [List.map, List.foldl, hf2, List.any]
+    by_cases hp : p a = true
+    · rw [if_pos hp, foldl_inl f hf1]; simp [hp]
+    · rw [if_neg hp, ih]; simp [hp]
+
+theorem fold_state (f : Sum D D → D → Sum D D) (g : Rat → Rat → Rat)
+    (hf2 : ∀ r q, f (Sum.inr (D.fin r)) (D.fin q) = Sum.inr (D.fin (g r q))) (l : List Rat) (a : Rat) :
+    (l.map D.fin).foldl f (Sum.inr (D.fin a)) = Sum.inr (D.fin (l.foldl g a)) := by
+  induction l generalizing a with
+  | nil => rfl
+  | cons b t ih => simp only [List.map, List.foldl, hf2, ih]
+
+theorem count_fold (l : List Rat) (a : Rat) :
+    l.foldl (fun r q => if (1/2 : Rat) ≤ q then r + 1 else r) a = a + ((l.filter (fun v => decide ((1/2 : Rat) ≤ v))).length : Nat) := by
+  induction l generalizing a with
+  | nil =>
+    have : ((0 : Nat) : Rat) = 0 := by push_cast; rfl
+    simp only [List.foldl, List.filter, List.length_nil, this]; grind
+  | cons b t ih =>
+    simp only [List.foldl, List.filter]
+    by_cases h : (1/2 : Rat) ≤ b
+    · simp only [h, if_true, decide_true, List.length_cons, ih]
+      push_cast; grind
+    · simp only [h, if_false, decide_false, ih]
+
+/-- **C07_gen_eval_loops**: `ComputeValue` for And / Or / Count / Max / Min: the range-for over the arguments, generated as a
+fold with early exit, computes the model's `Func.value` (Max / Min: for a non-empty argument list; on an empty one the C++
+returns ∓∞) -/
+theorem C07_gen_eval_loops (e : Env) (a : List Nat) :
+    D.fin ((Func.and a).value e) = Gen.SolCheck.evalAnd ((a.map e.x).map D.fin) ∧
+    D.fin ((Func.or a).value e) = Gen.SolCheck.evalOr ((a.map e.x).map D.fin) ∧
+    D.fin ((Func.count a).value e) = Gen.SolCheck.evalCount ((a.map e.x).map D.fin) ∧
+    (a ≠ [] → D.fin ((Func.max a).value e) = Gen.SolCheck.evalMax ((a.map e.x).map D.fin)) ∧
+    (a ≠ [] → D.fin ((Func.min a).value e) = Gen.SolCheck.evalMin ((a.map e.x).map D.fin)) := by
+  refine ⟨?_, ?_, ?_, ?_, ?_⟩
+  · unfold Gen.SolCheck.evalAnd
+    rw [fold_exit _ (fun q => decide (q < 1/2)) (D.ofInt 0) (by intros; rfl) (by intro q; simp [D.lt, ER.lt, D.fin])]
+    simp only [Func.value, List.any_map]
+    cases h : (a.any ((fun v => decide (v < 1/2)) ∘ e.x)) <;> simp_all [b2r, D.ofInt, D.fin, Function.comp_def]
+  · unfold Gen.SolCheck.evalOr
+    rw [fold_exit _ (fun q => decide ((1/2 : Rat) ≤ q)) (D.ofInt 1) (by intros; rfl) (by intro q; by_cases h : (1/2 : Rat) ≤ q <;> simp [D.ge, ER.lt, D.fin, h] <;> grind)]
+    simp only [Func.value, List.any_map]
+    cases h : (a.any ((fun v => decide ((1/2 : Rat) ≤ v)) ∘ e.x)) <;> simp_all [b2r, D.ofInt, D.fin, Function.comp_def]
+  · unfold Gen.SolCheck.evalCount
+    have h0 : (D.ofInt 0) = D.fin 0 := by simp [D.ofInt, D.fin]
+    simp only [h0]
+    rw [fold_state _ (fun r q => if (1/2 : Rat) ≤ q then r + 1 else r)
+      (by intro r q; by_cases h : (1/2 : Rat) ≤ q <;> simp [D.ge, ER.lt, D.fin, D.add, D.ofInt, h] <;> grind)]
+    simp only [Func.value, count_fold]
+    simp [D.fin]; grind
+  · intro hne
+    unfold Gen.SolCheck.evalMax
+    cases a with
+    | nil => exact absurd rfl hne
+    | cons a0 t =>
+      have hstep : ∀ r q, (fun (acc : Sum D D) (xi : D) => match acc with
+          | Sum.inl r => Sum.inl r
+          | Sum.inr st => if (D.lt st xi) then Sum.inr xi else Sum.inr st) (Sum.inr (D.fin r)) (D.fin q) =
+          Sum.inr (D.fin ((fun r v => if r < v then v else r) r q)) := by
+        intro r q; by_cases h : r < q <;> simp [D.lt, ER.lt, D.fin, h]
+      simp only [List.map, List.foldl]
+      have h1 : D.lt (D.neg D.pinf) (D.fin (e.x a0)) = true := by simp [D.lt, D.neg, D.pinf, D.fin, ER.lt]
+      simp only [h1, if_true]
+      rw [fold_state _ _ hstep]
+      simp [Func.value, maxL, D.fin]
+  · intro hne
+    unfold Gen.SolCheck.evalMin
+    cases a with
+    | nil => exact absurd rfl hne
+    | cons a0 t =>
+      have hstep : ∀ r q, (fun (acc : Sum D D) (xi : D) => match acc with
+          | Sum.inl r => Sum.inl r
+          | Sum.inr st => if (D.gt st xi) then Sum.inr xi else Sum.inr st) (Sum.inr (D.fin r)) (D.fin q) =
+          Sum.inr (D.fin ((fun r v => if v < r then v else r) r q)) := by
+        intro r q; by_cases h : q < r <;> simp [D.gt, ER.lt, D.fin, h]
+      simp only [List.map, List.foldl]
+      have h1 : D.gt D.pinf (D.fin (e.x a0)) = true := by simp [D.gt, D.pinf, D.fin, ER.lt]
+      simp only [h1, if_true]
+      rw [fold_state _ _ hstep]
+      simp [Func.value, minL, D.fin]
+
 /-! ## `ViolSummary` -/
 
 /-- **C07_gen_summ**: `ViolSummary::CheckViol` / `CountViol` (count, maxima and the names attached to them) -/
